@@ -1,0 +1,34 @@
+//! Read-only inspection hooks used by the external verification harness.
+//!
+//! Compiled only with `--cfg priority_queue_verif`; without that flag the
+//! crate is exactly what it is without this file.
+
+use crate::{DoublePriorityQueue, PriorityQueue};
+
+/// Raw copy of the index structures of a queue:
+/// `(heap: position -> slot, qp: slot -> position, size, map.len())`.
+pub type VerifSnapshot = (Vec<usize>, Vec<usize>, usize, usize);
+
+impl<I, P, H> PriorityQueue<I, P, H> {
+    /// Raw copy of the internal index tables (verification hook).
+    pub fn verif_snapshot(&self) -> VerifSnapshot {
+        (
+            self.store.heap.iter().map(|i| i.0).collect(),
+            self.store.qp.iter().map(|p| p.0).collect(),
+            self.store.size,
+            self.store.map.len(),
+        )
+    }
+}
+
+impl<I, P, H> DoublePriorityQueue<I, P, H> {
+    /// Raw copy of the internal index tables (verification hook).
+    pub fn verif_snapshot(&self) -> VerifSnapshot {
+        (
+            self.store.heap.iter().map(|i| i.0).collect(),
+            self.store.qp.iter().map(|p| p.0).collect(),
+            self.store.size,
+            self.store.map.len(),
+        )
+    }
+}
